@@ -3,6 +3,8 @@
    From "same CRC-64" to "same value" for arbitrary damage is a 2^-64 collision statement and is
    not claimed; for single-byte payload damage it is proved outright (burst lemma). *)
 From GoSST Require Import Base.Bytes Base.Crc RecordIO.Format RecordIO.MmapReader.
+From GoSST Require Import Base.CodeFacts.
+From GoSSTGen Require Import FactsCode.
 From GoSST Require Import SST.TableWriter SST.Index SST.TableReader SST.DamageTableFacts.
 Local Open Scope N_scope.
 
@@ -10,6 +12,11 @@ Theorem C09_checked_read_same_crc :
   forall (r : reader) (off crc : N) (v : option bytes),
   get_value_at r off crc false = Ok v -> crc64iso (payload_of v) = crc \/ crc = 0.
 Proof. exact checked_read_same_crc. Qed.
+(* the constructors the two sides call in the source, re-read on every run *)
+Theorem C09_value_checksum_same_on_both_sides :
+  value_crc_writer_iso = true /\ value_crc_reader_iso = true.
+Proof. pose proof hash_facts as H; split; apply H. Qed.
+
 Print Assumptions C09_checked_read_same_crc.
 
 Theorem C09_load_validates_all :
@@ -30,3 +37,4 @@ Theorem C09_single_byte_damage_rejected :
   get_value_at r off (crc64iso (pre ++ b :: post)) false = Err ValueChecksum.
 Proof. exact damaged_value_rejected. Qed.
 Print Assumptions C09_single_byte_damage_rejected.
+Print Assumptions C09_value_checksum_same_on_both_sides.
